@@ -468,6 +468,74 @@ def converter_case(ctx, k, tmp):
         global_uri_converter.remove(Conv)
 
 
+def ecore_illtyped_case(ctx, k, tmp):
+    """.ecore documents whose references name an element of the wrong kind — an `eOpposite` that names a class, an `eType`
+    that names a feature, a supertype that names a feature: the load raises, or what it returns is typed as a metamodel is
+    (the opposite of a reference is a reference or nothing, a type is a classifier, a supertype a class)"""
+    from pyecore import ecore as E
+    from pyecore.resources import ResourceSet, URI
+    from . import c10
+    rng = common.sub_rng(ctx.seed, 'C18', 'ecore-illtyped', k)
+    pk = c10.gen_metamodel(rng, 7000 + k)
+    d = os.path.join(tmp, f'illtyped{k}')
+    os.makedirs(d, exist_ok=True)
+    path = os.path.join(d, 'm.ecore')
+    try:
+        r = ResourceSet().create_resource(URI(path))
+        r.append(pk)
+        r.save()
+        text = open(path).read()
+    except Exception:
+        ctx.count('ecore-illtyped/source-not-serializable')
+        return
+    classes = re.findall(r'<eClassifiers xsi:type="ecore:EClass" name="([^"]+)"', text)
+    feats = re.findall(r'eOpposite="(#//[^"]+)"', text) + [f'#//{c}/nosuch' for c in classes[:1]]
+    variants = []
+    for m in re.finditer(r'eOpposite="#//([^"/]+)/[^"]+"', text):
+        variants.append(('eOpposite names a class', text[:m.start()] + f'eOpposite="#//{m.group(1)}"' + text[m.end():]))
+    for m in re.finditer(r'eType="#//([^"/]+)"', text):
+        if feats:
+            variants.append(('eType names a feature', text[:m.start()] + f'eType="{rng.choice(feats)}"' + text[m.end():]))
+    for m in re.finditer(r'eSuperTypes="#//([^" /]+)', text):
+        if feats:
+            variants.append(('a supertype names a feature', text[:m.start()] + f'eSuperTypes="{rng.choice(feats)}' + text[m.end():]))
+    rng.shuffle(variants)
+    for label, doc in variants[:4]:
+        open(path, 'w').write(doc)
+        rset = ResourceSet()
+        ctx.evaluations += 1
+        try:
+            res = rset.get_resource(URI(path))
+        except Exception:
+            ctx.count(f'ecore-illtyped/{label}/raised')
+            if rset.resources:
+                ctx.violate({'clause': 'trace-after-failure', 'format': 'ecore', 'what': 'resources'},
+                            f'after a failed load of an .ecore document ({label}) the resource set holds {sorted(rset.resources)}',
+                            {'case': k, 'kind': 'ecore-illtyped', 'label': label})
+                return
+            continue
+        ctx.count(f'ecore-illtyped/{label}/loaded')
+        ctx.nontriv(('ecore-illtyped', k, label))
+        bad = None
+        try:
+            for e in [x for root in res.contents for x in [root] + list(root.eAllContents())]:
+                if isinstance(e, E.EReference) and e.eOpposite is not None and not isinstance(e.eOpposite, E.EReference):
+                    bad = f'the eOpposite of reference {e.name} is a {type(e.eOpposite).__name__}'
+                elif isinstance(e, E.ETypedElement) and e.eType is not None and not isinstance(e.eType, (E.EClassifier, type)):
+                    bad = f'the eType of {getattr(e, "name", "?")} is a {type(e.eType).__name__}'
+                elif isinstance(e, E.EClass) and any(not isinstance(st, E.EClass) for st in e.eSuperTypes):
+                    bad = f'a supertype of {e.name} is not a class'
+                if bad:
+                    break
+        except Exception as ex:
+            bad = f'inspecting the loaded metamodel raised {type(ex).__name__}'
+        if bad:
+            ctx.violate({'clause': 'loaded-not-wellformed', 'format': 'ecore'},
+                        f'an .ecore document in which {label} loaded into an ill-typed metamodel: {bad}',
+                        {'case': k, 'kind': 'ecore-illtyped', 'label': label})
+            return
+
+
 def ecore_opposite_case(ctx, k, tmp):
     """a metamodel file that fails to load after it has named, as the eOpposite of one of its references, a reference of an
     already loaded metamodel: the loaded one is left as it was (recorded finding F-C18-2: `eOpposite` is a Python property
@@ -627,6 +695,7 @@ def run(ctx):
             if h < 12:
                 ecore_opposite_case(ctx, h, tmp)
                 converter_case(ctx, h, tmp)
+                ecore_illtyped_case(ctx, h, tmp)
     finally:
         shutil.rmtree(tmp, ignore_errors=True)
     ctx.assumptions += ['termination of lxml / json parsing itself is trusted (watchdog only)',
